@@ -58,10 +58,26 @@ def digest_forms(ctx):
     rets = generic.sole_outcome(ctx, rets, f"{fq}: expected one normal outcome")
     o = rets[0]
     stores = {}
+    from sa.terms import top_cases
     for e, g in _with_guards(o.effects):
         if isinstance(e, App) and e.op == "eff:store" and e.args[0] == OBJ and e.args[1] == Const("suit-digest-bytes"):
-            form = guard_form(g, D)
-            stores.setdefault(form, []).append((e, g))
+            # one assignment per form under its guard, or one assignment of a value selected by the same guards: the same table
+            for gv, alt in top_cases(e.args[2]):
+                if isinstance(alt, App) and alt.op == "raises":
+                    continue
+                g2 = tuple(g) + tuple(gv.items())
+                form = guard_form(g2, D)
+                if form is None:
+                    # the last alternative of a selection whose other way out raises: the key it reads, when the absence of that
+                    # very key is what is rejected
+                    read = {s_.args[1].v for s_ in subterms(alt) if isinstance(s_, App) and s_.op == "idx" and s_.args[0] == D
+                            and isinstance(s_.args[1], Const)}
+                    for k_ in read:
+                        neg = [App("not", (App("in", (Const(k_), App("meth:keys", (D,)))),)), App("not", (App("in", (Const(k_), D)),)),
+                               App("not in", (Const(k_), App("meth:keys", (D,)))), App("not in", (Const(k_), D))]
+                        if len(read) == 1 and any(x.kind == "raise" and any(c in neg for c in x.conds) for x in outs):
+                            form = k_
+                stores.setdefault(form, []).append((App("eff:store", (e.args[0], e.args[1], alt), e.node), g2))
     R.rule("C05-D1a digest forms", 5, "file -> hash(own algorithm, whole file); file_direct -> file bytes as hex; envelope -> refreshed child, manifest digest under the parent's algorithm; raw -> identity")
     envcls = Ref("class", repo.cls(ENVM, "SuitEnvelopeTagged"))
 
